@@ -20,6 +20,14 @@ func init() {
 				r.Rule("R13e", "RESTORE-SETS-CONFIG: a restore function starts from the constructor's value or stores every field the constructor stores (a restored forest must also evolve like the original)")
 				checkRestoreConfig(p, r, "R13e")
 			}},
+			{ID: "R13m", Statement: "a memoized size is reset by every method that changes the forest", Run: func(p *Program, r *Report) {
+				r.Rule("R13m", "MEMO-INVALIDATED: a struct field that memoizes a value computed from the rest of the struct is stored by every exported method that changes the struct (the predicted serialization size must describe the current forest)")
+				checkMemoInvalidated(p, r, "R13m")
+			}},
+			{ID: "R13l", Statement: "the restore function takes over the header it reads", Run: func(p *Program, r *Report) {
+				r.Rule("R13l", "RESTORE-TAKES-THE-STREAM'S-HEADER: every field of the receiver that the map forest's restore function stores from a value read off the stream (allocated rows, leaf count) is stored on every path that goes on after the read - never only when the stream's value is larger than, or different from, what the receiver had")
+				checkRestoreTakesHeader(p, r, "R13l", "(*MapPollard).Read", 2)
+			}},
 			{ID: "R13k", Statement: "every record read is stored", Run: func(p *Program, r *Report) {
 				r.Rule("R13k", "STORE-EVERY-RECORD: a loop of the map forest's restore function that rebuilds the node store or the leaf index stores on every iteration - no record the stream carried is left out of the restored forest")
 				var names []string
